@@ -436,3 +436,41 @@ def memcpy_as_stores(v, fn, ps):
                 continue
         out.append(p)
     return out
+
+
+def forward_local_arrays(ps):
+    """`T tmp[n]; for u<n: tmp[u] = V(u); ... ; for w<n: dst[w] = tmp[w]`  ->  `for w<n: dst[w] = V(w)`: a value that reaches its
+    destination through a scratch array private to the call (a local array, a std::vector, a new[] buffer) that is filled by
+    exactly one statement in one loop.  The fill statement itself is kept (other rules look at the scratch array)."""
+    fills = {}
+    for p in ps:
+        if p["kind"] == "store" and p["lv"][0] == "idx" and len(p["loops"]) >= 1 and p["op"] == "=":
+            base = p["lv"][1]
+            r = sym.root_of(base)
+            if r is not None and r[0] in ("var", "new") and base == r and p["lv"][2] == p["loops"][-1]["var"] \
+                    and not (p.get("algorithm") == "std::vector"):
+                fills.setdefault(base, []).append(p)
+    # the value-initialisation of a std::vector is not a fill: drop it from the candidates when a real fill exists
+    single = {}
+    for base, fl in fills.items():
+        real = [p for p in fl if not (p["val"] == ZERO and p["loops"][-1].get("algorithm") == "std::vector")]
+        if len(real) == 1:
+            single[base] = real[0]
+    if not single:
+        return ps
+    out = []
+    for p in ps:
+        if p["kind"] == "store" and isinstance(p.get("val"), tuple):
+            val = p["val"]
+            w = val
+            while w[0] == "cast":
+                w = w[2]
+            if w[0] == "idx" and w[1] in single and single[w[1]] is not p and sym.root_of(p["lv"]) != w[1]:
+                f = single[w[1]]
+                r = dict(p)
+                r["val"] = sym.subst(f["val"], {f["loops"][-1]["var"]: w[2]})
+                r["through_scratch"] = sym.show(w[1])
+                out.append(r)
+                continue
+        out.append(p)
+    return out
